@@ -16,7 +16,7 @@ ID = 'C05'
 LEVEL = 'exploration'
 RULE = ('Engine A: lattice of pre-test pairs (x, y): n in {4,5,6,8,12} x 5 control shapes x noise patterns (pairs with zero '
         'residual variance dropped by the reference model and counted) x n_test in {1,2,5} x sig in {0.8,0.9,0.95} x power '
-        'in {0.6,0.8,0.9} x flevel in {0.9,0.99} (quick: a 12-point parameter sub-grid), plus parameter objects that differ in fields the formula must ignore (n_pretest_max smaller than the series, iroas, rho_max, min_corr, n_designs, n_geos_max). Oracle: (1) design-side required '
+        'in {0.6,0.8,0.9} x flevel in {0.9,0.99} (quick: a 12-point parameter sub-grid), plus parameter objects that differ in fields the formula must ignore (n_pretest_max smaller than the series, iroas, rho_max, min_corr, n_designs, n_geos_max), plus PRESENTATIONS of the same numbers (integer-dtype y with half-integer x, integer x with half-integer y, both integer, lists, pandas Series). Oracle: (1) design-side required '
         'impact == closed form (t_sig + t_pow) * n_test * sigma * sqrt(phi (n+1)/(n n_test (n-1)) + 1/n + 1/n_test); (2) two '
         'real code paths against each other: an experiment frame whose test-period control mean is displaced by dx = '
         'sqrt(phi (n+1) Sxx / (n n_test (n-1))) and whose treatment shows exactly lift = required impact is analysed by '
@@ -46,7 +46,30 @@ def cases(tier, seed):
                         if extra.get('n_pretest_max', 3) >= 3:
                             out.append({'n': n, 'shape': sh, 'noise': noise, 'amp': amp, 'seed': seed,
                                         'par': dict(PARAMS_Q[(n + noise) % len(PARAMS_Q)], **extra)})
+    # presentations of the SAME numbers: integer-dtype treatment series with a fractional control series (and vice versa),
+    # plain lists, pandas Series, float32-representable values held as float32
+    for n in (5, 8, 12):
+        for sh in frames.SHAPES:
+            for pres in ('int-y', 'int-x', 'list', 'series', 'int-both'):
+                out.append({'n': n, 'shape': sh, 'noise': 1, 'amp': 1, 'seed': seed, 'par': PARAMS_Q[(n + len(sh)) % len(PARAMS_Q)], 'pres': pres})
     return out
+
+
+def present(case, x, y):
+    """-> (x, y) as handed to the library.  The numbers are unchanged; only the container / dtype differs."""
+    import pandas as pd
+    pres = case.get('pres')
+    if pres == 'int-y':
+        return x, y.astype(np.int64)
+    if pres == 'int-x':
+        return x.astype(np.int64), y
+    if pres == 'int-both':
+        return x.astype(np.int64), y.astype(np.int64)
+    if pres == 'list':
+        return [float(v) for v in x], [float(v) for v in y]
+    if pres == 'series':
+        return pd.Series(x, index=range(10, 10 + len(x))), pd.Series(y, index=range(10, 10 + len(y)))
+    return x, y
 
 
 def pair(case):
@@ -54,6 +77,12 @@ def pair(case):
     x = frames.shape(case['shape'], n, case['seed']) + np.array(frames.lcg_noise(3 * case['seed'] + case['noise'], n, 0, 3), float)
     e = np.array(frames.lcg_noise(17 * case['seed'] + 5 * case['noise'] + 9, n, -2, 2), float)
     y = 2 * x + 5 + case['amp'] * e
+    pres = case.get('pres')
+    if pres == 'int-y':      # x on a half-integer lattice, y integral: y may be held in an integer dtype, x may not be truncated
+        x = x + 0.5 * (np.arange(n) % 2)
+        y = np.round(2 * x + 5 + case['amp'] * e)
+    elif pres == 'int-x':    # x integral, y on a half-integer lattice
+        y = y + 0.5 * (np.arange(n) % 2)
     return x, y
 
 
@@ -65,8 +94,9 @@ def run_case(case):
     if fit['s2'] <= 1e-12 or fit['sxx'] <= 0:
         return {'viol': [], 'nontrivial': False, 'outcome': 'degenerate', 'counts': {'degenerate_pairs_dropped': 1}}
     par = TBRMMDesignParameters(**dict({'iroas': 1.0}, **p))
-    d = TBRMMDiagnostics(y, par)
-    d.x = x
+    xp, yp = present(case, x, y)
+    d = TBRMMDiagnostics(yp, par)
+    d.x = xp
     RI = d.required_impact
     viol = []
 
